@@ -46,6 +46,20 @@ func callOfName(v ssa.Value, name string) *ssa.Call {
 	return c
 }
 
+// sumCalls lists the calls of name among the terms of a sum/difference.
+func sumCalls(v ssa.Value, name string) []*ssa.Call {
+	if c := callOfName(v, name); c != nil {
+		return []*ssa.Call{c}
+	}
+	if bo, ok := v.(*ssa.BinOp); ok && (bo.Op == token.ADD || bo.Op == token.SUB) {
+		return append(sumCalls(bo.X, name), sumCalls(bo.Y, name)...)
+	}
+	if u, ok := v.(*ssa.UnOp); ok && u.Op == token.SUB {
+		return sumCalls(u.X, name)
+	}
+	return nil
+}
+
 // c04Unfold: era unfolding in TimeFromTime64.
 func c04Unfold(p *ana.Prog, r *ana.Result, pset *ana.ProverSet, fn *ssa.Function) {
 	fname := ana.FuncName(fn)
@@ -172,9 +186,9 @@ func c04Seconds(p *ana.Prog, r *ana.Result, pset *ana.ProverSet, fn *ssa.Functio
 	if ok {
 		if b, ok := cv.Type().Underlying().(*types.Basic); ok && b.Kind() == types.Uint32 {
 			if l, ok := pr.Int(cv.X, 0); ok && len(l.Coef) == 1 && l.C == -ntpEpoch {
-				for a, c := range l.Coef {
-					_ = a
-					if u := callOfName(cv.X.(*ssa.BinOp).X, "(time.Time).Unix"); u != nil && c == 1 && u.Call.Args[0] == ssa.Value(fn.Params[0]) {
+				for _, c := range l.Coef {
+					// the single atom of the sum: the Unix() reading of the argument
+					if us := sumCalls(cv.X, "(time.Time).Unix"); c == 1 && len(us) == 1 && us[0].Call.Args[0] == ssa.Value(fn.Params[0]) {
 						okForm = true
 					}
 				}
